@@ -155,11 +155,17 @@ def unconstrained_strategy(draw):
             u[0] = 1.0
         u = u / np.linalg.norm(u)
         if kind == "probe-armijo":
-            rho = 10.0 ** draw(grid(-4.0, -2.0, 80))
+            # rho = 1e-3 exactly (grid index 40) puts the trial point exactly ON the sufficient-decrease boundary: in exact
+            # arithmetic a tie, in floating point decided by the summation order of a dot product (Fortran ddot vs numpy) --
+            # both decisions are correct, so the exact tie is not generated; its neighbours (0.06 decades away) are
+            k = draw(st.integers(0, 79))
+            rho = 10.0 ** (-4.0 + 2.0 * (k if k < 40 else k + 1) / 80)
             r = 1.0 / (2.0 * (1.0 - rho))
             probe = {"kind": "armijo", "rho": rho}
         else:
-            r = 10.0 * (1.0 + draw(sgrid(0.02, 40)))
+            # r = 10 exactly makes the slope ratio at the first trial exactly 0.9 = gtol (same remark): excluded by construction
+            k = draw(st.integers(1, 40)) * draw(st.sampled_from([1, -1]))
+            r = 10.0 * (1.0 + 0.02 * k / 40)
             probe = {"kind": "curvature", "r": r}
         x0 = (np.array(a) + r * u).tolist()
         p = {"obj": {"family": "sphere_probe", "n": n, "s": svec, "a": a}, "lb": [None] * n, "ub": [None] * n, "x0": x0}
